@@ -21,7 +21,8 @@ _GEN_TEXT = {
     "C18": (" REGENERATED on every run (Generated/FuncsEval.lean, on top of FuncsTak/FuncsOver) and bridged in Props/C18_gen.lean, for ALL positions and ALL weight vectors: "
             "evaluateTerminal (evaluateTerminal_is_source: the position enters through WinDetails(), WhiteStones(), BlackStones(), Size(), MoveNumber() and the regenerated ToMove; "
             "the weights through the four constant indices read; WinBase is evaluated from the source) and EvaluateWinner (evaluateWinner_is_source, through the regenerated GameOver). "
-            "int64 is modelled as Int (no overflow for the weights in range, see the range theorems)."),
+            "int64 is modelled as Int (no overflow for the weights in range, see the range theorems). bitboard.Dimensions (dimensions_is_source: whenever the model's loops end the regenerated "
+            "function returns the same width/height; dimensions_width_fuel / dimensions_count_fuel: the whitelist fuel 70 of the counting loops suffices for every 64-bit mask)."),
     "C20": (" REGENERATED on every run (Generated/FuncsFPA.lean, FuncsMove.lean) and bridged in Props/C20_gen.lean: isCentered, isCenterAdjacent (for every board size < 250; "
             "p enters through p.Size() only), distance (all int8 arguments incl. wrap-around), dir (same type / same panic), Move.IsSlide, Move.Dest (destOf_is_source)."),
 }
